@@ -46,6 +46,20 @@ PROPS = {
   'essential_classes': ['setters:valid', 'setters:invalid:correction > 255', 'setters:invalid:level > 255', 'parsed:with-refused-level', 'parsed:has-metadata', 'parsed:has-legacy-id',
                         'cal:valid-with-alg-switch', 'caltime:valid', 'caltime:impossible', 'shape:too-long', 'list:valid'],
   'assumptions': ['Crypto++ digests are correct', 'publication times below 2^62 (time_t output)'],
+ }, 'C05': {
+  'technique': 'model-based property testing: exhaustive small rule trees x outcome assignments + rapidcheck random trees against a reference interpreter',
+  'level_text': 'Instrumented user rules (256 distinct functions recording their invocation) are arranged into generated rule trees and fallback chains; the SDK '
+                'verifier is compared with a reference interpreter of the documented semantics on return code, final result/error code/rule name, exact '
+                'invocation trace (order, nothing after the stopping point), policy count and per-policy results. Exhaustive for all trees with a bounded number '
+                'of basic rules (depth <= 3) x all assignments of five outcomes, and all fallback chains of single-rule policies; random beyond.',
+  'level_note': 'Trusted: the 40-line reference interpreter in harness/C05.cpp (written from the statement and policy.h), rule functions instrumented by the harness. Empty rule lists are outside the domain.',
+  'rule': 'exhaustive: every rule tree with <= N basic rules and depth <= 3 x every assignment of {OK, NA(GEN-2), NA(no code), FAIL, internal error} + every chain of 1..4 '
+          'single-rule policies; random: trees of depth <= 5, <= 40 basic rules per policy, 0..3 fallbacks, 7 outcome kinds (errors leaving OK/NA/FAIL in the result). '
+          'Non-trivial = at least one composite node (or a fallback) and at least one non-OK outcome; distinct = distinct (tree, outcomes, chain) rendering.',
+  'quick': {'cases': 6400, 'max_size': 200, 'exhaustive': True, 'wall_s': 900},
+  'thorough': {'cases': 200000, 'max_size': 300, 'exhaustive': True, 'wall_s': 3000},
+  'essential_classes': ['end:error', 'end:OK', 'end:NA', 'end:FAIL', 'policies-evaluated:4', 'chain-length:3', 'depth:3'],
+  'assumptions': ['reference interpreter reflects the documented semantics'],
  },
 }
 
